@@ -35,15 +35,20 @@ def raising_guards(f, cfg):
     return out
 
 
+def _mentions_size(n) -> bool:
+    """A size occurs in n -- except where it is only the default branch of `<size> if x is None else x`."""
+    if isinstance(n, ast.IfExp):
+        return _mentions_size(n.body) and _mentions_size(n.orelse)
+    if isinstance(n, ast.Attribute) and n.attr in ("size", "_size"):
+        return True
+    if isinstance(n, ast.Call) and isinstance(n.func, (ast.Name, ast.Attribute)) and (getattr(n.func, "id", None) or getattr(n.func, "attr", "")) in ("len", "resolve_size"):
+        return True
+    return any(_mentions_size(c) for c in ast.iter_child_nodes(n))
+
+
 def is_size_expr(e, fl: FuncFlow) -> bool:
     ids, roots = fl.depends(e)
-    for r in roots:
-        for n in ast.walk(r):
-            if isinstance(n, ast.Attribute) and n.attr in ("size", "_size"):
-                return True
-            if isinstance(n, ast.Call) and isinstance(n.func, (ast.Name, ast.Attribute)) and (getattr(n.func, "id", None) or getattr(n.func, "attr", "")) in ("len", "resolve_size"):
-                return True
-    return False
+    return any(_mentions_size(r) for r in roots)
 
 
 def root_names(e, fl: FuncFlow):
@@ -147,6 +152,24 @@ def run(ctx, rep):
     # ------------------------------------------------------------ C14.2
     rep.rule("C14.2", "duplicate, unknown-identifier, unknown-gate and arity checks dominate the constructions they protect", floor=6)
     builder = ix.cls(BUILDER)
+    # (a0) build_macro: repeated parameter names are rejected before the body is built
+    bm_ = builder.methods.get("build_macro")
+    if bm_ is not None:
+        cons = construct_of(bm_, "repeated-parameter")
+        flm_ = FuncFlow(ix, T, bm_)
+        cfgm_ = CFG(bm_.body)
+        ok_ = False
+        for st, lbl in raising_guards(bm_, cfgm_):
+            ids, roots = flm_.depends(st.test)
+            exprs = [st.test] + list(roots)
+            from_params = any(isinstance(m, ast.Subscript) and isinstance(m.slice, ast.Slice) for e in exprs for m in ast.walk(e)) or any(isinstance(m, ast.Name) and "param" in m.id for e in exprs for m in ast.walk(e))
+            counts = any(isinstance(m, ast.Call) and isinstance(m.func, ast.Name) and m.func.id in ("len", "set", "Counter") for m in ast.walk(st.test)) or any(isinstance(m, ast.Compare) and isinstance(m.ops[0], (ast.In, ast.NotIn)) for m in ast.walk(st.test))
+            if from_params and counts and not any(isinstance(m, ast.Constant) and m.value == 2 for m in ast.walk(st.test)):
+                ok_ = True
+        if ok_:
+            rep.ok("C14.2", cons, "a raising test on the parameter names (length of the name set / membership) precedes the body", bm_.loc())
+        else:
+            rep.violation("C14.2", cons, "`macro f a a { .. }` is accepted: nothing rejects a parameter name that is defined twice", bm_.loc(), witness="register r[2]\nmacro f a a { Px a }")
     # (a) add_to_context: membership test raising dominates the store
     atc = builder.methods.get("add_to_context")
     if atc is None:
@@ -427,6 +450,64 @@ def run(ctx, rep):
             rep.ok("C14.4", cons, "the repetition count is kind-checked before the statement is built", fi.loc())
         else:
             rep.violation("C14.4", cons, "the repetition count is not checked to be an integer (or a let/parameter standing for one): `let n 2.5; loop n { .. }` is accepted and fails with TypeError when executed", fi.loc(), witness="let n 2.5\nregister r[1]\nloop n { prepare_all; measure_all }")
+
+    # counts that arise by macro substitution are validated by the substituting visitor
+    from . import c04 as _c04
+    _exp, _repl = _c04.find_visitors(ctx)
+    for mname in ("visit_LoopStatement", "visit_BlockStatement"):
+        fi = ix.classes[_repl].methods.get(mname)
+        if fi is None:
+            continue
+        cons = construct_of(fi, "substituted-count-kind")
+        found = None
+        verdict = None
+        for cs in T.callsites(fi):
+            if cs.kind != "constructor" or not cs.classes or not isinstance(cs.node, ast.Call):
+                continue
+            cname = cs.classes[0].split(".")[-1]
+            if cname not in ("LoopStatement", "BlockStatement"):
+                continue
+            arg = next((k.value for k in cs.node.keywords if k.arg == "iterations"), None)
+            if arg is None and cname == "LoopStatement" and cs.node.args:
+                arg = cs.node.args[0]
+            if arg is None:
+                continue
+            found = arg
+            # the argument is the result of a call into a function that rejects non-integers
+            ok_ = False
+            if isinstance(arg, ast.Call):
+                for cs2 in T.callsites(fi):
+                    if cs2.node is arg:
+                        for t in cs2.targets:
+                            if t.name in ("visit",) or t.name.startswith("visit_"):
+                                continue
+                            cf = CFG(t.body)
+                            for st, lbl in raising_guards(t, cf):
+                                if "isinstance" in ast.unparse(st.test):
+                                    ok_ = True
+            verdict = ok_
+        if found is None:
+            rep.undecided("C14.4", cons, "no rebuilt loop/block with a count found in the substituting visitor", fi.loc())
+        elif verdict:
+            rep.ok("C14.4", cons, f"`{ast.unparse(found)}` goes through a function that raises JaqalError for a non-integer count", fi.loc())
+        else:
+            rep.violation("C14.4", cons, f"the substituted count `{ast.unparse(found)}` is stored unchecked: `macro f n {{ loop n {{ .. }} }}; f 1.5` (or `f r[0]`) is accepted by the parser and by expand_macros and fails with TypeError when executed", fi.loc(), witness="register r[2]\nmacro f n { prepare_all; loop n { Px r[0] }; measure_all }\nf 1.5")
+
+    # a register's size is positive
+    ri = ix.functions.get("jaqalpaq.core.register.Register.__init__")
+    if ri is not None:
+        cons = construct_of(ri, "size-positive")
+        cfg_ri = CFG(ri.body)
+        okp = False
+        for st, lbl in raising_guards(ri, cfg_ri):
+            for c in ast.walk(st.test):
+                if isinstance(c, ast.Compare) and len(c.ops) == 1 and isinstance(c.left, ast.Name) and c.left.id == "size" and isinstance(c.comparators[0], ast.Constant):
+                    if (isinstance(c.ops[0], ast.LtE) and c.comparators[0].value == 0) or (isinstance(c.ops[0], ast.Lt) and c.comparators[0].value == 1):
+                        okp = True
+        if okp:
+            rep.ok("C14.4", cons, "`size <= 0` raises JaqalError", ri.loc())
+        else:
+            rep.violation("C14.4", cons, "a register can be created with size zero or negative (only the literal `register q[-1]` is refused by the parser): `let n -1; register q[n]` is accepted and the emulator fails with TypeError", ri.loc(), witness="let n -1\nregister q[n]\nprepare_all\nmeasure_all")
 
     # ------------------------------------------------------------ C14.6
     rep.rule("C14.6", "gate statements whose arguments were substituted are built through the definition's call (arity and kind validation), not constructed directly", floor=1)
